@@ -586,11 +586,8 @@ func BufferWithCount[T any](size int) func(Observable[T]) Observable[[]T] {
 				),
 			)
 
-			return func() {
-				sub.Unsubscribe()
-
-				buffer = []T{}
-			}
+			// the buffer is owned by the source callback; it becomes garbage with the subscription
+			return sub.Unsubscribe
 		})
 	}
 }
